@@ -522,6 +522,18 @@ func driveC19(c *driverCtx) error {
 			}
 			emitCS(c, "C19", fmt.Sprintf("C19|pointers|%s", shortSchema(sch)), s3, reflect.TypeOf(T3{}), v, true)
 		}
+		// omitempty on a time: only the zero time.Time is empty -- 1970-01-01 (stored as 0) is a value like any other
+		type TO struct {
+			A time.Time `json:"a,omitempty"`
+			Z int64     `json:"z"`
+		}
+		so := `{"type":"record","name":"TO","fields":[{"name":"a","type":["null",` + sch + `]},{"name":"z","type":"long"}]}`
+		for k, t := range []time.Time{time.Unix(0, 0).UTC(), time.Unix(1, 0).UTC(), time.Unix(-1, 0).UTC(), time.Unix(86400, 0).UTC(), genTimeFor(c.rng, sch, true)} {
+			if t.IsZero() || (sch == sDate && t.Unix()%86400 != 0) {
+				continue
+			}
+			emitCS(c, "C19", fmt.Sprintf("C19|omitempty|%s|%d", shortSchema(sch), k), so, reflect.TypeOf(TO{}), reflect.ValueOf(TO{A: t, Z: int64(k)}), true)
+		}
 		// times as the items of an array and the values of a map (whatever shortcut collections take for their
 		// items, the logical type still decides what is stored)
 		type TC struct {
